@@ -64,6 +64,9 @@ def run_string_case(env, res, seed, index):
     case['string'] = s
     try:
         mval, mvec = M.parse(s)
+    except M.ModelOverflow:
+        res.count('strings_discarded_float_range')    # leading number / factor scales pushed a partial product out of range
+        return
     except M.ModelInvalid as e:
         raise AssertionError(f'generator produced a string outside the model grammar: {s!r}: {e}')
     assert mvec == vec, (s, mvec, vec)
@@ -141,6 +144,10 @@ def run_string_case(env, res, seed, index):
         x = float(rng.uniform(1, 1000)) * (1 if rng.random() < .7 else -1)
         text = M.fmt_num(round(x, int(rng.integers(0, 9)))) + unit
         x = float(text[:len(text) - len(unit)])
+        try:
+            M.parse(text)
+        except M.ModelOverflow:
+            return
         try:
             qq = SI.parse(text)
         except Exception as e:
